@@ -1181,6 +1181,17 @@ func (e *Enc) evalCallSpec(x SCall, ctx *specCtx) *Val {
 			}
 		}
 		return mathInt("(ssum " + row + " " + v.L[slOff] + " " + v.L[slLen] + ")")
+	case "wrapint", "wrapint32", "wrapuint64":
+		// the machine value of an integer expression: what Go's int / int32 / uint64
+		// arithmetic yields for it (specification integers are mathematical otherwise)
+		v := e.evalSpec(x.Args[0], ctx)
+		switch x.Fn {
+		case "wrapint":
+			return mathInt("(wrapms64 " + v.L[0] + ")")
+		case "wrapint32":
+			return mathInt("(wrapms32 " + v.L[0] + ")")
+		}
+		return mathInt("(mod " + v.L[0] + " 18446744073709551616)")
 	case "heldany":
 		// heldany(T.mu): the mutex mu of the (single) T instance is held by this goroutine
 		// (type-level flag used by `guarded ... by (T).mu`)
